@@ -517,8 +517,9 @@ func c25Systematic(sf *c25Surface, allowed map[string]bool) []*c25Case {
 			emit(k)
 		}
 
-		// F5: help / terminator as the value of every value-taking option
-		for _, o := range c25Modelled(leaf) {
+		// F5: help / terminator as the value of every value-taking option (also
+		// those with a custom value type, which are never claimed well-formed)
+		for _, o := range c25Named(leaf) {
 			if !o.TakesValue {
 				continue
 			}
@@ -541,7 +542,7 @@ func c25Systematic(sf *c25Surface, allowed map[string]bool) []*c25Case {
 							}
 						}
 						joined := form == c25FormLongEq || form == c25FormShortJoined || form == c25FormShortEq
-						if joined && o.Kind == "string" && len(o.Choices) == 0 {
+						if joined && o.modelled && o.Kind == "string" && len(o.Choices) == 0 {
 							k.WF = leaf // the value is just a string
 						}
 						emit(k)
